@@ -5,12 +5,14 @@
 #include <primitives/transaction.h>
 #include <script/script.h>
 #include <set>
+#include <memory>
 #include <map>
 #include "replay_util.h"
 #define BAD(...) do { rv::g_stats.real_violations++; if (rv::g_stats.real_violations <= 8) { std::printf("REAL-VIOLATION " __VA_ARGS__); std::printf("\n"); } } while (0)
 #define DIS(...) do { rv::g_stats.disagreements++; if (rv::g_stats.disagreements <= 8) { std::printf("DISAGREE " __VA_ARGS__); std::printf("\n"); } } while (0)
 static uint32_t fnv(const std::string& s) { uint32_t h = 0x811C9DC5u; for (unsigned char c : s) h = (h ^ c) * 0x01000193u; return h | 1; }
-struct xPackage { size_t n; int64_t total_weight; size_t distinct; bool consistent; const size_t* vin_size; const size_t* const* parent; };
+struct xPackage { size_t n; int64_t total_weight; size_t distinct; bool consistent; const size_t* vin_size; const size_t* const* parent; const bool* spent_by_last; };
+extern "C" bool xc_IsChildWithParents(const xPackage*);
 struct xState { int mode_invalid; int result; uint32_t reason; };
 extern "C" bool xc_IsWellFormedPackage(const xPackage*, xState*);
 static CTransactionRef mk(rv::Rng& r, const std::vector<COutPoint>& ins, size_t pad_sig, size_t pad_wit, uint32_t tag) { CMutableTransaction m; for (auto& o : ins) { CTxIn in; in.prevout = o; m.vin.push_back(in); } if (!m.vin.empty()) { m.vin[0].scriptSig = CScript() << std::vector<unsigned char>(pad_sig, 1); if (pad_wit) m.vin[0].scriptWitness.stack = {std::vector<unsigned char>(pad_wit, 2)}; }
@@ -25,8 +27,10 @@ static void run(const Package& pkg, const char* what)
     bool want = n <= 25 && (n <= 1 || total <= 404000) && !dup && sorted && consistent;
     std::string wr = n > 25 ? "package-too-many-transactions" : (n > 1 && total > 404000) ? "package-too-large" : dup ? "package-contains-duplicates" : !sorted ? "package-not-sorted" : !consistent ? "conflict-in-package" : "";
     PackageValidationState st; bool got = IsWellFormedPackage(pkg, st); rv::g_stats.inputs++;
-    xPackage xp{n, total, ids.size(), IsConsistentPackage(pkg), vsz.data(), parp.data()}; xState xs{0, 0, 0}; bool xg = dup && n <= 25 && (n <= 1 || total <= 404000) ? got : xc_IsWellFormedPackage(&xp, &xs);
+    std::unique_ptr<bool[]> sbl(new bool[n + 1]); std::set<Txid> child_in; if (n) for (auto& in : pkg[n - 1]->vin) child_in.insert(in.prevout.hash); for (size_t k = 0; k < n; k++) sbl[k] = child_in.count(pkg[k]->GetHash()) != 0;
+    xPackage xp{n, total, ids.size(), IsConsistentPackage(pkg), vsz.data(), parp.data(), sbl.get()}; xState xs{0, 0, 0}; bool xg = dup && n <= 25 && (n <= 1 || total <= 404000) ? got : xc_IsWellFormedPackage(&xp, &xs);
     if (got != xg || (!got && !(dup && n <= 25) && xs.mode_invalid && fnv(st.GetRejectReason()) != xs.reason)) DIS("IsWellFormedPackage (%s): real %d/%s, extracted %d/%08x", what, got, st.GetRejectReason().c_str(), xg, xs.reason);
+    { bool cwp = IsChildWithParents(pkg); bool wcwp = n >= 2; for (size_t k = 0; k + 1 < n; k++) wcwp = wcwp && sbl[k]; rv::g_stats.inputs++; if (cwp != xc_IsChildWithParents(&xp)) DIS("IsChildWithParents"); if (cwp != wcwp) BAD("IsChildWithParents (%s: %zu transactions) = %d, but %s transaction before the last is spent by the last", what, n, cwp, wcwp ? "every" : "not every"); }
     if (got != want || (!got && st.GetRejectReason() != wr)) BAD("IsWellFormedPackage (%s: %zu transactions, total weight %lld, duplicates %d, sorted %d, conflict-free %d) = %d (%s), the rules say %d (%s)", what, n, (long long)total, dup, sorted, consistent, got, st.GetRejectReason().c_str(), want, wr.c_str());
 }
 int main(int argc, char** argv)
@@ -42,6 +46,11 @@ int main(int argc, char** argv)
         if (mode == 4) { CMutableTransaction m(*pkg.back()); m.vin[0].prevout = COutPoint(Txid::FromUint256(uint256{9}), 7); uint256 self = MakeTransactionRef(m)->GetHash().ToUint256(); (void)self; pkg.back() = MakeTransactionRef(m); }
         if (mode == 5) { CMutableTransaction m; m.vout.resize(1); pkg.push_back(MakeTransactionRef(m)); }                      // a transaction without inputs
         run(pkg, "random package");
+        { // child-with-parents shapes: k parents, a child spending some outputs of each (sometimes two outputs of one parent), sometimes an unrelated transaction in between
+          Package cp; size_t np = 1 + r.below(4); std::vector<COutPoint> cin; for (size_t i = 0; i < np; i++) { cp.push_back(mk(r, {COutPoint(Txid::FromUint256(uint256{(uint8_t)(60 + i)}), (uint32_t)it)}, r.below(10), 0, (uint32_t)(it * 16 + i))); cin.emplace_back(cp.back()->GetHash(), 0); if (r.below(3) == 0) cin.emplace_back(cp.back()->GetHash(), 1); }
+          if (r.below(3) == 0) cp.push_back(mk(r, {COutPoint(Txid::FromUint256(uint256{99}), (uint32_t)it)}, 3, 0, (uint32_t)(it * 16 + 9)));     // unrelated
+          if (r.below(5) == 0 && !cin.empty()) cin.erase(cin.begin() + r.below(cin.size()));
+          cp.push_back(mk(r, cin.empty() ? std::vector<COutPoint>{COutPoint(Txid::FromUint256(uint256{98}), 1)} : cin, 5, 0, (uint32_t)(it * 16 + 10))); run(cp, "child with parents"); }
         // weight boundary: two transactions padded so that the total weight is 403,999 .. 404,002
         { int64_t target = 404000 + (int64_t)r.below(4) - 1; auto t0 = mk(r, {COutPoint(Txid::FromUint256(uint256{3}), (uint32_t)it)}, 50000, 0, 1); int64_t w0 = GetTransactionWeight(*t0); std::vector<COutPoint> in1{COutPoint(t0->GetHash(), 0)}; auto probe = mk(r, in1, 40000, 1, 2); int64_t wp = GetTransactionWeight(*probe);
           int64_t need = target - w0 - wp; size_t extra_sig = need > 0 ? (size_t)(need / 4) : 0; size_t extra_wit = need > 0 ? (size_t)(need % 4) : 0; auto t1 = mk(r, in1, 40000 + extra_sig, 1 + extra_wit, 2); Package p2{t0, t1}; run(p2, "two transactions at the weight limit"); if (r.below(4) == 0) { Package p1{t1}; run(p1, "single transaction"); } }
